@@ -39,6 +39,7 @@ const (
 	sigClosePP   = "pingpong/pool-close:self-deadlock-with-idle-connection"
 	sigMuxGA     = "mux/goaway-then-connection-close:stream-reset-self-deadlock"
 	sigMuxZombie = "mux/goaway-connection-replaced:never-closed-after-drain"
+	sigEarly     = "pool/connection-reset-races-new-stream:request-slot-never-released"
 	partSeq      = "seq"
 	partConc     = "conc"
 	partMinimal  = "minimal"
@@ -119,6 +120,8 @@ type run struct {
 	// requests other hosts of the same cluster hold (max_requests is a cluster-wide threshold, a pool
 	// belongs to one host): simulated through the exported resource manager
 	foreign int
+	// absorbed sigEarly: request slots the pool will never release
+	leakedReq int
 	step    int
 	tok     int
 
@@ -231,7 +234,7 @@ func (b books) String() string {
 
 func (r *run) expect() books {
 	var b books
-	n := int64(len(r.active()))
+	n := int64(len(r.active()) + r.leakedReq)
 	b.reqAct = n
 	if r.h.MaxReq != 0 { // resource.Increase is a no-op when the threshold is 0 (unlimited)
 		b.reqCur = n + int64(r.foreign)
@@ -485,7 +488,7 @@ func trimStack(s string) string {
 
 // spec-level capacity: would a new stream have to be admitted?
 func (r *run) capacity() (reqOver, connOver bool) {
-	n := len(r.active()) + r.foreign
+	n := len(r.active()) + r.foreign + r.leakedReq
 	reqOver = r.h.MaxReq > 0 && n >= int(r.h.MaxReq)
 	if r.pingpong() {
 		// max_connections bounds the connections in use: leasing an idle one counts like opening a new one
@@ -732,6 +735,27 @@ func (r *run) timeoutLost(s *mstream) *failure {
 		return r.hang(h)
 	}
 	s.state = sReset
+	if s.st.State().Destroyed == 0 {
+		// ResetStream returned without calling our listener: the stream had already been reset and destroyed
+		// (by the dying connection) before the harness - like the proxy - could attach its listener.
+		r.class("reset-before-listener")
+		want, got := r.expect(), r.read()
+		leak := want
+		leak.reqAct++
+		if r.h.MaxReq != 0 {
+			leak.reqCur++
+		}
+		if diffBooks(got, want) != "" && diffBooks(got, leak) == "" {
+			// ... and even before the pool attached ITS listener: the pool counted the request in and will
+			// never count it out. All calls involved are synchronous and the connection is gone: final.
+			f := &failure{sig: sigEarly, step: r.step, msg: fmt.Sprintf("request %q: the connection was reset between ClientStreamConnection.NewStream (stream registered, resettable) and the pool's AddEventListener in ConnectionPool.NewStream; the pool then counted the request in (request_active, Requests().Increase) and its OnDestroyStream will never run: books %s with %d requests active. The max_requests slot is lost for good. model: %s", s.token, got, len(r.active()), r.describe())}
+			if !r.known(sigEarly) {
+				return f
+			}
+			r.leakedReq++
+			r.class("absorbed-early-reset-leak")
+		}
+	}
 	return r.settle("lost-request-timeout")
 }
 
@@ -1295,6 +1319,9 @@ func (r *run) finish() *failure {
 		}
 		if len(r.active()) != n+1 {
 			if r.leaked() > 0 && r.known(sigF10) {
+				return nil
+			}
+			if r.leakedReq > 0 && r.known(sigEarly) {
 				return nil
 			}
 			f := r.failf(false, "capacity-not-restored", "after every lease ended only %d of %d new streams (max_connections %d, max_requests %d) were admitted; model: %s", i, want, r.h.MaxConn, r.h.MaxReq, r.describe())
